@@ -382,7 +382,7 @@ func (w *hWorld) exec(o hOp) (out string, panicked string) {
 		if w.unm == nil {
 			w.unm = &biscuit.Unmarshaler{Symbols: &datalog.SymbolTable{}}
 		}
-		tok, err := w.unm.Unmarshal(bs)
+		tok, err := unmarshalerOwned(w.unm, bs)
 		if err != nil {
 			return failOf(err), ""
 		}
@@ -871,7 +871,7 @@ func versionGate(res *Result, tok []byte, base []string, r *RNG, hist string) {
 				continue
 			}
 			baseTbl := datalog.SymbolTable(append([]string{}, base...))
-			_, uerr := (&biscuit.Unmarshaler{Symbols: &baseTbl}).Unmarshal(mb)
+			_, uerr := unmarshalerOwned(&biscuit.Unmarshaler{Symbols: &baseTbl}, mb)
 			res.Dist("version-gate")
 			decl := fmt.Sprint(v)
 			if v < 0 {
@@ -1036,10 +1036,10 @@ func genHistoryChecked(res *Result, rng *RNG, w *hWorld, nOps int, allowRebuild 
 			}
 			// reload fidelity
 			baseTbl := datalog.SymbolTable(append([]string{}, w.tokBase[ti]...))
-			t2, err := (&biscuit.Unmarshaler{Symbols: &baseTbl}).Unmarshal(bs)
+			t2, err := unmarshalerOwned(&biscuit.Unmarshaler{Symbols: &baseTbl}, bs)
 			if o.Kind == "reload" && len(w.tokBase[ti]) > 0 {
 				// the history's reload used the default table: the printed form legitimately differs
-				t2, err = (&biscuit.Unmarshaler{Symbols: &baseTbl}).Unmarshal(bs)
+				t2, err = unmarshalerOwned(&biscuit.Unmarshaler{Symbols: &baseTbl}, bs)
 			}
 			if w.tokForeign[ti] || w.tokReuse[ti] {
 				// carries a block built for another token's table (Append cannot tell, Unmarshal may
